@@ -21,6 +21,7 @@ CONSTANTS
   NoRedSet = {FALSE}
   NoObfSets = {{}}
   WidthSet = {FALSE}
+  AllowSet = {0}
   FamSet = {"plain"}
   AllowBlank = FALSE
   Runs = 1
